@@ -8,6 +8,7 @@ package main
 import (
 	"bytes"
 	"fmt"
+	"github.com/evolbioinfo/goalign/version"
 	"os"
 	"path/filepath"
 	"sort"
@@ -254,7 +255,25 @@ func gentables(args []string) error {
 	b.WriteString(genHeader)
 	fmt.Fprintf(&b, "Definition FASTA_LINE : nat := %d.\nDefinition PHYLIP_LINE : nat := %d.\nDefinition PHYLIP_BLOCK : nat := %d.\nDefinition CLUSTAL_LINE : nat := %d.\nDefinition PAML_LINE : nat := %d.\nDefinition PAML_BLOCK : nat := %d.\n",
 		fasta.FASTA_LINE, phylip.PHYLIP_LINE, phylip.PHYLIP_BLOCK, clustal.CLUSTAL_LINE, paml.PAML_LINE, paml.PAML_BLOCK)
+	fmt.Fprintf(&b, "Definition GOALIGN_VERSION : list byte := %s.\n", byteListLit([]byte(version.Version)))
 	if err := writeIfChanged(filepath.Join(out, "IOConst.v"), b.Bytes()); err != nil {
+		return err
+	}
+
+	// --- Groups.v (conservation groups of SiteConservation) ---------------------
+	b.Reset()
+	b.WriteString(genHeader)
+	strong, weak := align.VerifConservationGroups()
+	grp := func(name string, gs [][]uint8) {
+		it := make([]string, len(gs))
+		for i, g := range gs {
+			it[i] = byteListLit(g)
+		}
+		fmt.Fprintf(&b, "Definition %s : list (list byte) := [%s].\n", name, strings.Join(it, "; "))
+	}
+	grp("strong_groups", strong)
+	grp("weak_groups", weak)
+	if err := writeIfChanged(filepath.Join(out, "Groups.v"), b.Bytes()); err != nil {
 		return err
 	}
 	return nil
